@@ -242,6 +242,9 @@ class Summariser:
             return False
         if fn.is_property or fn.is_classmethod:
             return False
+        # a decorator changes what calling the function means (memoisation, context managers, ...)
+        if any(d not in ("staticmethod",) for d in fn.decorators):
+            return False
         for n in ast.walk(fn.node):
             if isinstance(n, (ast.Yield, ast.YieldFrom, ast.Await)):
                 return False
